@@ -79,7 +79,7 @@ type vtRun struct {
 	free     chan struct{} // closed: every gate is open (drain)
 	freeOnce sync.Once
 	callDone chan struct{}
-	wg       sync.WaitGroup // tool bodies and producers still running
+	active   int32 // tool bodies and producers still running
 	consumed []int32        // chunks logged per position (stream form)
 	termSeen int32
 	forced   bool
@@ -115,7 +115,7 @@ func (r *vtRun) openAll() { r.freeOnce.Do(func() { close(r.free) }) }
 
 // enter registers a tool (handler) invocation and binds it to the first not yet started call with the same name and arguments
 func (r *vtRun) enter(name, args string) *vtInv {
-	r.wg.Add(1)
+	atomic.AddInt32(&r.active, 1)
 	r.mu.Lock()
 	defer r.mu.Unlock()
 	for i, c := range r.c.Calls {
@@ -152,7 +152,7 @@ func vtChunks(name, args string, n int) []string {
 // body of the invokable form of a tool / of the unknown-tool handler
 func (r *vtRun) invokable(name, args, beh string, handler bool) (string, error) {
 	inv := r.enter(name, args)
-	defer r.wg.Done()
+	defer atomic.AddInt32(&r.active, -1)
 	r.wait(inv)
 	switch beh {
 	case "fail", "failmid":
@@ -177,12 +177,12 @@ func (r *vtRun) streamable(name, args, beh string, nchunks int) (*schema.StreamR
 	switch beh {
 	case "fail":
 		r.emit("tend", "name", name, "args", args, "h", false, "res", "err", "out", "")
-		r.wg.Done()
+		atomic.AddInt32(&r.active, -1)
 		inv.acked()
 		return nil, &vtErr{name, args}
 	case "panic":
 		r.emit("tend", "name", name, "args", args, "h", false, "res", "panic", "out", "")
-		r.wg.Done()
+		atomic.AddInt32(&r.active, -1)
 		inv.acked()
 		panic("vfpanic[" + name + "|" + args + "]")
 	}
@@ -198,7 +198,7 @@ func (r *vtRun) streamable(name, args, beh string, nchunks int) (*schema.StreamR
 		r.emit("tend", "name", name, "args", args, "h", false, "res", "ok", "out", strings.Join(chunks, ""))
 	}
 	go func() {
-		defer r.wg.Done()
+		defer atomic.AddInt32(&r.active, -1)
 		if beh == "failmid" {
 			r.wait(inv)
 			sw.Send(chunks[0], nil)
@@ -556,12 +556,26 @@ func vtRunCase(c *vtCase, sink *bufio.Writer) []string {
 	case <-time.After(2 * vtStepTimeout):
 	}
 	r.openAll()
-	settled := make(chan struct{})
-	go func() { r.wg.Wait(); close(settled) }()
+	// every started tool body / producer must have finished before the case is closed; tool bodies that have not even started
+	// when the call is over (a panic escaped while the goroutines were being scheduled) get a moment to show up
+	quiet := func() bool {
+		if atomic.LoadInt32(&r.active) != 0 {
+			return false
+		}
+		r.mu.Lock()
+		all := true
+		for _, t := range r.taken {
+			all = all && t
+		}
+		r.mu.Unlock()
+		if all {
+			return true
+		}
+		time.Sleep(300 * time.Microsecond)
+		return atomic.LoadInt32(&r.active) == 0
+	}
 	note := ""
-	select {
-	case <-settled:
-	case <-time.After(vtStepTimeout):
+	if !vtSpinUntil(quiet, vtStepTimeout) {
 		note = "tool bodies still running"
 	}
 	r.mu.Lock()
